@@ -38,12 +38,14 @@ REQUIRED_COUNTERS = {   # ~40 % of what the unchanged tree produces (determinist
               "gaussian_logdet_checked": 600, "gaussian_reassign_checked": 250, "outside_support_checked": 160,
               "cdf_value_checked": 280, "normalisation_quadratures": 12, "slice_quadratures": 100, "cdf_quadratures": 12,
               "dblquad_quadratures": 3, "logd_offset_checked": 3000, "pdf_vs_logpdf_checked": 600, "mrf_value_checked": 500,
-              "gmrf_constant_checked": 100, "mhn_difference_checked": 20, "conditioned_value_checked": 500},
+              "gmrf_constant_checked": 100, "mhn_difference_checked": 20, "conditioned_value_checked": 500,
+              "threshold_embedding_checked": 170, "reassign_history_checked": 500},
     "thorough": {"logpdf_value_checked": 5000, "gaussian_form_value_checked": 20000, "gaussian_forms_agree_checked": 20000,
                  "gaussian_logdet_checked": 7000, "gaussian_reassign_checked": 3000, "outside_support_checked": 2000,
                  "cdf_value_checked": 3500, "normalisation_quadratures": 130, "slice_quadratures": 800, "cdf_quadratures": 150,
                  "dblquad_quadratures": 30, "logd_offset_checked": 28000, "pdf_vs_logpdf_checked": 6000, "mrf_value_checked": 1500,
-                 "gmrf_constant_checked": 300, "mhn_difference_checked": 150, "conditioned_value_checked": 6000},
+                 "gmrf_constant_checked": 300, "mhn_difference_checked": 150, "conditioned_value_checked": 6000,
+                 "threshold_embedding_checked": 700, "reassign_history_checked": 2500},
 }
 BUDGET_S = {"quick": 200.0, "thorough": 1500.0}
 
@@ -107,6 +109,17 @@ def cases(tier, seed):
                         for fam in ("LMRF", "CMRF"):
                             out.append({"kind": "mrf", "family": fam, "bc": bc, "order": 1, "pd": pd, "N": N,
                                         "shift": shift, "mode": mode})
+    # one matrix embedded as blockdiag(M, c*I) at total dims on both sides of the sparse-storage threshold
+    for param, kinds in (("cov", ("-",)), ("prec", ("-",)), ("sqrtcov", ("sym", "upper", "lower", "nonsym")),
+                         ("sqrtprec", ("sym", "upper", "lower", "nonsym"))):
+        for kind_ in kinds:
+            for rep in range(2 if tier == "quick" else 8):
+                out.append({"kind": "embed", "param": param, "sqrt_kind": kind_, "rep": rep})
+    # re-assignment histories of the mutable parameters of an existing object
+    for fam in UNI_FAMS + ("Lognormal", "Gaussian", "GMRF", "LMRF", "CMRF"):
+        for form in ("scalar1", "array") if fam not in ("GMRF", "LMRF", "CMRF") else ("array", "scalar_loc"):
+            for rep in range(2 if tier == "quick" else 10):
+                out.append({"kind": "reassign", "family": fam, "form": form, "rep": rep})
     for rep in range(4 if tier == "quick" else 20):
         out.append({"kind": "user", "which": "udd", "rep": rep})
     for nm in ("CalSom91", "BivariateGaussian", "funnel", "mixture", "squiggle", "donut", "banana"):
@@ -117,7 +130,7 @@ def cases(tier, seed):
     return out
 
 def crash_config(case):
-    return {k: case[k] for k in ("kind", "family", "pform", "struct", "bc", "order", "pd", "covform", "which") if k in case}
+    return {k: case[k] for k in ("kind", "family", "pform", "struct", "bc", "order", "pd", "covform", "which", "param", "sqrt_kind", "form") if k in case}
 
 # ----------------------------------------------------------------------------- helpers
 
@@ -1081,6 +1094,195 @@ def _run_user(case, ctx, rs):
             ctx.violation("logd_not_logpdf_plus_constant", cfg, detail=f"{offs}")
     ctx.nontrivial(f"user/{which}")
 
+# ----------------------------------------------------------------------------- same distribution on both sides of the threshold
+
+EMBED_DIMS = (5, 6, 40, 74, 75, 76, 77, 120)
+
+def _run_embed(case, ctx, rs):
+    """Convention-independent: Gaussian(param = blockdiag(M, c*I_k)) is the product of Gaussian(param = M) and k
+    independent N(m_i, v(c)) coordinates, whatever the total dimension (dense or sparse internal storage)."""
+    import cuqi
+    param, kind = case["param"], case["sqrt_kind"]
+    k0 = 5
+    A = _spd(rs, k0, "full")
+    M = A if kind == "-" else _sqrt_kinds(A, rs)[kind]
+    c = float(_logu(rs, 0.5, 2.0))
+    var_tail = {"cov": c, "prec": 1 / c, "sqrtcov": c * c, "sqrtprec": 1 / (c * c)}[param]
+    mu0 = rs.uniform(-1, 1, k0)
+    base_cfg = {"kind": "embed", "family": "Gaussian", "param": param, "sqrt_kind": kind}
+    k, small = _val(ctx, "construct", cuqi.distribution.Gaussian, mu0.copy(), cfg=base_cfg, name="x", **{param: M.copy()})
+    if k is None:
+        return
+    xs = [mu0 + rs.uniform(-1.5, 1.5, k0) for _ in range(3)]
+    small_vals = []
+    for x in xs:
+        k, v = _val(ctx, "logpdf", small.logpdf, x.copy(), cfg=base_cfg)
+        if k is None:
+            return
+        small_vals.append(_scalar(v))
+    for dtot in EMBED_DIMS[1:]:
+        kk = dtot - k0
+        side = "sparse" if dtot > cuqi.config.MIN_DIM_SPARSE else "dense"
+        cfg = {**base_cfg, "side": side}
+        big = np.zeros((dtot, dtot)); big[:k0, :k0] = M; big[k0:, k0:] = c * np.eye(kk)
+        mut = rs.uniform(-1, 1, kk)
+        k, g = _val(ctx, "construct", cuqi.distribution.Gaussian, np.concatenate([mu0, mut]), cfg=cfg, name="x", **{param: big})
+        if k is None:
+            continue
+        for x, sv in zip(xs, small_vals):
+            y = mut + math.sqrt(var_tail) * rs.uniform(-2, 2, kk)
+            k, v = _val(ctx, "logpdf", g.logpdf, np.concatenate([x, y]), cfg=cfg)
+            if k is None:
+                break
+            expect = sv + float(np.sum(R.normal_logpdf1(y, mut, math.sqrt(var_tail))))
+            ctx.count("threshold_embedding_checked")
+            if not _close(_scalar(v), expect):
+                ctx.violation("gaussian_differs_across_dimension", cfg,
+                              detail=f"{param}=blockdiag(M,{c:.3g}*I) ({kind}) at dim {dtot} ({side} storage): logpdf {_scalar(v)!r}; the dim-{k0} "
+                                     f"object with {param}=M times the independent tail gives {expect!r} - not one and the same distribution")
+                break
+    ctx.nontrivial(f"embed/{param}/{kind}")
+
+# ----------------------------------------------------------------------------- re-assignment histories
+
+def _sequences(names):
+    import itertools
+    out = []
+    for r in range(1, len(names) + 1):
+        out += list(itertools.permutations(names, r))
+    return out
+
+def _run_reassign(case, ctx, rs):
+    """Build with parameters P0, optionally evaluate once (fills caches), re-assign a sequence of parameters to their P1
+    values, then the FIRST access through logpdf / pdf / cdf must be the density of the current parameters."""
+    import cuqi
+    fam, form = case["family"], case["form"]
+    D = cuqi.distribution
+    d = 1 if form == "scalar1" else 3
+    cfg0 = {"kind": "reassign", "family": fam, "form": form}
+    if fam in UNI_FAMS:
+        roles = _roles(fam, "scalar1" if d == 1 else "array")
+        names = list(R.UNI[fam]["params"])
+        P0, P1 = _draw_params(fam, roles, d, rs), _draw_params(fam, roles, d, rs)
+        if fam == "Uniform":      # every mixture of old/new bounds must stay ordered
+            for P in (P0, P1):
+                P["low"] = rs.uniform(-3, 0, d) if roles["low"] == "v" else np.full(d, rs.uniform(-3, 0))
+                P["high"] = rs.uniform(1, 5, d) if roles["high"] == "v" else np.full(d, rs.uniform(1, 5))
+        arg = lambda p, P: (float(P[p][0]) if (roles[p] == "s" or d == 1) else P[p].copy())
+        build = lambda: getattr(D, fam)(**{p: arg(p, P0) for p in names}, name="x", **({"geometry": d} if d > 1 and all(r == "s" for r in roles.values()) else {}))
+        point = lambda P: _interior(fam, P, d, rs)
+        ref_logpdf = lambda x, P: R.indep_logpdf(fam, x, P)
+        methods = ("logpdf", "pdf") + (("cdf",) if fam in HAS_CDF else ())
+    elif fam == "Lognormal":
+        names = ["mean", "cov"]
+        def draw():
+            mu = rs.uniform(-1, 1, d)
+            if d == 1 or case["rep"] % 3 == 0:
+                v = float(_logu(rs, 0.2, 2.0)); return {"mean": mu, "cov": v, "_S": v * np.eye(d)}
+            if case["rep"] % 3 == 1:
+                v = _logu(rs, 0.2, 2.0, d); return {"mean": mu, "cov": v, "_S": np.diag(v)}
+            Sg = _spd(rs, d, "full") * 0.4; return {"mean": mu, "cov": Sg, "_S": Sg}
+        P0, P1 = draw(), draw()
+        arg = lambda p, P: (float(P[p][0]) if (p == "mean" and d == 1) else (P[p].copy() if isinstance(P[p], np.ndarray) else P[p]))
+        build = lambda: D.Lognormal(arg("mean", P0), arg("cov", P0), name="x")
+        point = lambda P: np.exp(P["mean"] + np.sqrt(np.diag(P["_S"])) * rs.uniform(-1.5, 1.5, d))
+        ref_logpdf = lambda x, P: R.lognormal_logpdf(x, P["mean"], P["_S"])
+        methods = ("logpdf", "pdf")
+    elif fam == "Gaussian":
+        gp = ("cov", "prec", "sqrtcov", "sqrtprec")[case["rep"] % 4]
+        names = ["mean", gp]
+        def draw():
+            mu = rs.uniform(-1, 1, d)
+            if d == 1:
+                v = float(_logu(rs, 0.3, 3.0)); Sg = v * np.eye(1)
+            else:
+                Sg = _spd(rs, d, "full" if case["rep"] % 2 else "diag")
+            Pm = np.linalg.inv(Sg)
+            Mv = {"cov": Sg, "prec": Pm, "sqrtcov": _sym_sqrt(Sg), "sqrtprec": _sym_sqrt(Pm)}[gp]
+            if d == 1:
+                Mv = float(Mv[0, 0])
+            elif case["rep"] % 2 == 0:
+                Mv = np.diag(Mv).copy()          # vector storage
+            return {"mean": mu, gp: Mv, "_S": Sg}
+        P0, P1 = draw(), draw()
+        arg = lambda p, P: (float(P[p][0]) if (p == "mean" and d == 1) else (P[p].copy() if isinstance(P[p], np.ndarray) else P[p]))
+        build = lambda: D.Gaussian(arg("mean", P0), name="x", **{gp: arg(gp, P0)})
+        point = lambda P: P["mean"] + np.sqrt(np.diag(P["_S"])) * rs.uniform(-2, 2, d)
+        ref_logpdf = lambda x, P: R.gaussian_logpdf(x, P["mean"], cov=P["_S"])
+        methods = ("logpdf", "pdf")
+    else:   # MRF priors on a regular structure (zero bc, order 1: no known finding in the way)
+        N = 6; d = N
+        pd_ = 1 + case["rep"] % 2
+        n = N ** pd_; d = n
+        geom = cuqi.geometry.Continuous1D(N) if pd_ == 1 else cuqi.geometry.Image2D((N, N))
+        Dm = S.diff_op(N, "zero", 1, pd_)
+        locname, parname = ("mean", "prec") if fam == "GMRF" else ("location", "scale")
+        names = [locname, parname]
+        def draw():
+            loc = np.full(n, float(rs.uniform(-1, 1))) if form == "scalar_loc" else rs.standard_normal(n)
+            return {locname: loc, parname: float(_logu(rs, 0.2, 8.0))}
+        P0, P1 = draw(), draw()
+        arg = lambda p, P: (P[p] if p == parname else (float(P[p][0]) if form == "scalar_loc" else P[p].copy()))
+        build = lambda: getattr(D, fam)(arg(locname, P0), arg(parname, P0), bc_type="zero", geometry=geom, name="x")
+        sp_ = lambda P: (1 / math.sqrt(P[parname]) if fam == "GMRF" else P[parname])
+        point = lambda P: P[locname] + rs.standard_normal(n) * sp_(P)
+        if fam == "GMRF":
+            ref_logpdf = lambda x, P: R.gmrf_logpdf(x, P[locname], P[parname], Dm)[0]
+        elif fam == "LMRF":
+            ref_logpdf = lambda x, P: R.lmrf_logpdf(x, P[locname], P[parname], Dm)
+        else:
+            ref_logpdf = lambda x, P: R.cmrf_logpdf(x, P[locname], P[parname], Dm)
+        methods = ("logpdf", "pdf")
+    for seq in _sequences(names):
+        Pm = dict(P0)
+        for p in seq:
+            Pm[p] = P1[p]
+        if "_S" in P0:
+            Pm["_S"] = P1["_S"] if names[1] in seq else P0["_S"]
+        for touched in (False, True):
+            for via in methods:
+                cfg = {**cfg0, "seq": ">".join(seq), "touched": touched, "via": via}
+                k, obj = _val(ctx, "construct", build, cfg=cfg0)
+                if k is None:
+                    return
+                if touched:
+                    k, _ = _val(ctx, "logpdf", obj.logpdf, point(P0), cfg=cfg)
+                    if k is None:
+                        return
+                bad = False
+                for p in seq:
+                    k, _ = _val(ctx, "reassign", setattr, obj, p, arg(p, P1), cfg=cfg)
+                    bad = bad or k is None
+                if bad:
+                    continue
+                x = point(Pm)
+                xin = float(x[0]) if d == 1 else x.copy()
+                k, v = _val(ctx, via, getattr(obj, via), xin, cfg=cfg)
+                if k is None:
+                    continue
+                got = _scalar(v)
+                ctx.count("reassign_history_checked")
+                if via == "cdf":
+                    refc = R.indep_cdf(fam, x, Pm)
+                    okv = got is not None and abs(got - refc) <= 1e-9 + 1e-8 * abs(refc)
+                    if not okv and fam == "Cauchy" and d > 1 and abs(got - float(np.sum(R.cauchy_cdf1(x, Pm["location"], Pm["scale"])))) <= 1e-9:
+                        okv = True      # the known sum-instead-of-product finding is reported by the 'uni' cases
+                    refv = refc
+                else:
+                    refv = ref_logpdf(x, Pm)
+                    refv = math.exp(refv) if via == "pdf" else refv
+                    okv = _close(got, refv, rtol=1e-7, atol=1e-300 if via == "pdf" else ATOL)
+                if not okv:
+                    stale = None
+                    if via != "cdf":
+                        old = ref_logpdf(x, P0); old = math.exp(old) if via == "pdf" else old
+                        stale = _close(got, old, rtol=1e-7, atol=1e-300 if via == "pdf" else ATOL)
+                    ctx.violation("stale_after_reassign", cfg,
+                                  detail=f"{fam} ({form}): after re-assigning {' then '.join(seq)}{' (evaluated once before)' if touched else ''} the first "
+                                         f"{via} gives {got!r}; density of the current parameters {refv!r}"
+                                         + ("; equals the value for the OLD parameters" if stale else ""))
+    ctx.nontrivial(f"reassign/{fam}/{form}")
+
 # ----------------------------------------------------------------------------- entry points
 
 def run_case(case, ctx):
@@ -1099,6 +1301,10 @@ def run_case(case, ctx):
             _run_mrf(case, ctx, rs)
         elif kind == "user":
             _run_user(case, ctx, rs)
+        elif kind == "embed":
+            _run_embed(case, ctx, rs)
+        elif kind == "reassign":
+            _run_reassign(case, ctx, rs)
         else:
             raise ValueError(kind)
 
